@@ -24,6 +24,7 @@ struct MDecl
     std::string text;  // one complete declaration statement (may span lines)
     std::string name;
     std::vector<int> tags;
+    std::string shape;  // FUN: the statement skeleton of the body (see summarize_document), "" = not stated
 };
 
 struct MParam
